@@ -265,3 +265,23 @@ ENTRIES["C15"]["text"] = ("[R]/[G] proofs (Props/C15, C15b) for ALL SIX joints, 
 ENTRIES["C15"]["note"] = ("The geometric clause is proved for the bare robot; for tool/base/frame stacks it follows from C09 (stack_forward) and is decided by the "
     "sampled predicate C15.geometric on wrapped robots. try_inverse/SVD are nalgebra (oracle; only the residual is checked).")
 NOT_APPLICABLE = {}
+
+# ---- additions of the later sessions ---------------------------------------------------------------
+ENTRIES["C01"]["text"] += (" Props/C01c ([R]): the RETURNED vector itself (after the final normalize_near) reproduces the REQUESTED pose: "
+    "inverse_continuing within DISTANCE_TOLERANCE + SINGULARITY_SHIFT (<= 1.125 um) and ANGULAR_TOLERANCE, within 1 um when the unshifted solve is "
+    "non-empty; inverse within 1 um / 1 urad; the 5-DOF entry points within 1 um of the tool point; for any integer-valued sign corrections; "
+    "the same against the local pose through wrapper stacks. This closes the gap of inverseContinuing_sound_partial over the reals.")
+ENTRIES["C01"]["note"] = ("Trusted: Lean kernel + 3 standard axioms; model tied by the differential run and by the source translators (Props/Tie: forward, "
+    "forward_with_joint_poses, inverse_intern, inverse_intern_5_dof, compare_poses, normalize_near are the formulas translated from the current source "
+    "text). The generic [G] form for inverse_continuing stays partial (named so); the full bound is [R] (exact reals), IEEE rounding sampled.")
+ENTRIES["C15"]["text"] += (" Props/C15c ([R]): the same for WRAPPED robots -- for every tool/base/frame/shape stack with unit quaternions and every joint: "
+    "perturbing joint i rotates the stack's flange pose about the base-moved joint axis through the base-moved link origin; the angular part of the "
+    "finite-difference column is exactly s_i * (R_B a_i); the linear part is ((E' - 1)(t' - o'))/eps, converges to s_i (R_B a_i) x (t' - o') and obeys "
+    "the same within-step error bound; assembled against the stack's own link poses.")
+ENTRIES["C15"]["note"] = ("Matrix inverse / SVD are nalgebra (oracle; only the residual J*qdot = x is checked). For the last link of a stack containing a Frame the "
+    "link-pose form is not claimed (the model multiplies the last link by the frame); the axis/origin form holds for all six joints. Trusted base as for C01.")
+ENTRIES["C14"]["text"] += (" After the repair of defect D21 (non_colliding_offsets ignored CheckMode::NoCheck) offsets_exact holds in EVERY check mode: the "
+    "hypothesis own.mode != noCheck of the earlier theorem was the excluded point at which the real code failed.")
+ENTRIES["C07"]["note"] += (" inside_bounds and the per-joint body of compute_centers are additionally tied by the statement-level source translator (Props/Tie, generic in the number type).")
+ENTRIES["C18"]["note"] += (" Known finding D22 (arcs a few ulp wide whose midpoint is not representable) is printed as KNOWN-FINDING; the exact sub-epsilon family must pass.")
+ENTRIES["C11"]["note"] += (" The check also runs C10-style oracle-table scenes: the verdicts 'not reported colliding' rests on are compared with the brute-force pairwise check (C10.all_exact / first_subset / collides_iff decide C11 too).")
